@@ -185,7 +185,39 @@ def rule_weights_nonneg(repo, rep):
       rep.refuted(R, 'scml._BaseSCML._fit:%s@%d' % (w, nw), site(f, n),
                   'weights assigned %s, whose sign is %s' % (ast.unparse(v),
                                                              s))
-  rep.floor('assignments to the SCML weight vector', nw, 2)
+  # the checkpoint keeps the weights object itself (best_w = w): that object
+  # must never be written in place afterwards
+  Ra = 'FRESH:scml-checkpoint-not-overwritten'
+  rep.rule(Ra, 'the weight vector is rebound to a fresh array at every '
+           'iteration (never updated through out=, an augmented assignment '
+           'or a subscript store), or the checkpoint stores a copy: the kept '
+           'weights are those of the checkpoint')
+  copies = all(isinstance(v, ast.Call) and isinstance(v.func, ast.Attribute)
+               and v.func.attr == 'copy' or
+               (isinstance(v, ast.Call) and canon(repo.dotted(
+                   f.module, v.func) or '') in (canon('numpy.array'),
+                                                canon('numpy.copy')))
+               for v in bdefs) if bdefs else False
+  inplace = []
+  for n in ast.walk(f.node):
+    if isinstance(n, ast.Call):
+      for k in n.keywords:
+        if k.arg == 'out' and ast.unparse(k.value) == w:
+          inplace.append(n)
+    if isinstance(n, ast.AugAssign) and ast.unparse(n.target) == w:
+      inplace.append(n)
+    if isinstance(n, (ast.Assign, ast.AugAssign)):
+      tg = n.targets[0] if isinstance(n, ast.Assign) else n.target
+      if isinstance(tg, ast.Subscript) and ast.unparse(tg.value) == w:
+        inplace.append(n)
+  if inplace and not copies:
+    rep.refuted(Ra, 'scml._BaseSCML._fit:%s' % w, site(f, inplace[0]),
+                '%s is written in place by %s while %s = %s keeps a '
+                'reference to the same array: later iterations overwrite '
+                'the checkpoint' % (w, ast.unparse(inplace[0]), best, w))
+  else:
+    rep.derived(Ra, 'scml._BaseSCML._fit:%s' % w, site(f))
+  rep.floor('assignments to the SCML weight vector', nw + len(inplace), 2)
   # best checkpoint
   Rg = 'R-GUARD:scml-best-checkpoint'
   rep.rule(Rg, 'best_w is assigned only under obj < best_obj together with '
